@@ -102,6 +102,7 @@ SHAPES = {
                                         " subroutine pub()\n  call priv()\n end subroutine pub\n subroutine priv()\n end subroutine priv\nend module tm\n"},
     "capitalised file names": {"src/Shapes.f90": "module shapes\n  !! doc, see [[Shapes.f90]]\n  integer :: n\ncontains\n  subroutine draw()\n    !! draw doc\n  end subroutine draw\nend module shapes\n",
                                "src/Main.f90": "program main\n  !! main doc\n  use shapes\n  call draw()\nend program main\n"},
+    "custom icon": {"src/m.f90": "module m\n  !! doc\n  integer :: n\nend module m\n", "src/p.f90": "program main\n  use m\nend program main\n", "assets/logo-16.png": "png"},
     "kitchen sink": KS,
     "constructors local types and file links": {
         "src/tool.c": "/*! a C helper, see [[geo]] */ int tool(void){return 0;}\n",
@@ -130,6 +131,8 @@ def site_problems(files, options):
     f = dict(files)
     if "page_dir" in options:
         f.update(PAGES)
+    if "assets/logo-16.png" in f:
+        options = options + "favicon: ./assets/logo-16.png\n"
     meta = ("src_dir: ./src\noutput_dir: ./doc\nextra_filetypes: c //!\nsummary: A summary that links to [[m]] and [[main]] and [home](|url|/index.html) and <a href=\"|url|/index.html\" class=\"x\">in raw HTML</a>\n"
             "author: Somebody\nauthor_description: Wrote [[m]], see [the lists](|url|/index.html)\n")
     with site.site(f, meta + options) as (pd, status):
